@@ -512,10 +512,10 @@ func FactIsErrNil(f Fact, isErrOf func(v ssa.Value) bool) bool {
 	if f.Op != token.EQL {
 		return false
 	}
-	if IsNilConst(f.Y) && isErrOf(f.X) {
+	if IsNilConst(f.Y) && (isErrOf(f.X) || isErrOf(ResolveSpill(f.X))) {
 		return true
 	}
-	if IsNilConst(f.X) && isErrOf(f.Y) {
+	if IsNilConst(f.X) && (isErrOf(f.Y) || isErrOf(ResolveSpill(f.Y))) {
 		return true
 	}
 	return false
